@@ -989,6 +989,74 @@ func (e *Env) call(n ECall) TVal {
 			return TVal{T: Term{fn, rs}, Ty: res.At(0).Type()}
 		}
 		return TVal{T: Term{app(fn, as...), rs}, Ty: res.At(0).Type()}
+	case "separate":
+		// separate(a.f, b.g): the elements of slice a.f are not reachable through slice b.g (backing.go)
+		if len(n.Args) != 2 {
+			return e.errf("separate(a.f, b.g) expected")
+		}
+		if !e.goal {
+			// at a call site nothing is learnt from it: the caller's slices are values
+			return TVal{T: Term{"true", SBool}, Ty: types.Typ[types.Bool]}
+		}
+		var bk [2]*Backing
+		for i, a := range n.Args {
+			f, ok := a.(EField)
+			if !ok {
+				return e.errf("separate: %s is not a field of an object", exprString(a))
+			}
+			x := e.tr(f.X)
+			var pt *types.Pointer
+			if x.Ty != nil {
+				pt, ok = x.Ty.Underlying().(*types.Pointer)
+			}
+			if !ok {
+				return e.errf("separate: %s is not a pointer", exprString(f.X))
+			}
+			p := &Ptr{Kind: PRef, Ref: x.T, SSort: vc.sorts.SortOf(pt.Elem()), Path: []Step{{IsField: true, FieldName: f.Name}}}
+			bk[i] = vc.backLoaded(e.st, p, e.tr(a).T)
+		}
+		la := e.tr(ECall{Fun: "len", Args: []Expr{n.Args[0]}})
+		return TVal{T: Term{vc.separateFormula(e.st, bk[0], bk[1], la.T.S), SBool}, Ty: types.Typ[types.Bool]}
+	case "sprintf":
+		// sprintf("format", args...): the result of fmt.Sprintf with that constant format (same symbol the executor uses)
+		if len(n.Args) < 1 {
+			return e.errf("sprintf needs a format")
+		}
+		fs, ok := n.Args[0].(EStr)
+		if !ok {
+			return e.errf("sprintf: %s is not a constant format", exprString(n.Args[0]))
+		}
+		if vc.fmtIDs == nil {
+			vc.fmtIDs = map[string]int{}
+		}
+		id, ok := vc.fmtIDs[fs.V]
+		if !ok {
+			id = len(vc.fmtIDs) + 1
+			vc.fmtIDs[fs.V] = id
+		}
+		var as, sorts []string
+		for _, a := range n.Args[1:] {
+			v := e.tr(a)
+			t := v.T.S
+			if v.T.Sort != SAny {
+				if v.Ty == nil {
+					return e.errf("sprintf: cannot box %s (untyped)", exprString(a))
+				}
+				c := vc.sorts.AnyCtor(v.Ty)
+				if c.sort != SAny {
+					t = app(c.name, t)
+				}
+			}
+			as = append(as, t)
+			sorts = append(sorts, SAny)
+		}
+		name := fmt.Sprintf("sprintf_%d_%d", id, len(as))
+		vc.declareFun(name, sorts, SStr)
+		if len(as) == 0 {
+			return TVal{T: Term{name, SStr}, Ty: types.Typ[types.String]}
+		}
+		vc.sprintfFormats[name] = fs.V
+		return TVal{T: Term{app(name, as...), SStr}, Ty: types.Typ[types.String]}
 	case "mark":
 		// instantiation hint: asserts the (otherwise unconstrained) trigger predicate
 		// qt_<sorts>(args), so universally quantified assumptions fire on this tuple
